@@ -1,1 +1,6 @@
 import FcGen.Types
+import FcGen.KSrcStd
+import FcGen.KSrcDir
+import FcGen.KSrcIdx
+import FcGen.KSrcPS
+import FcGen.KSrcGrp
